@@ -26,10 +26,12 @@ type declComments struct {
 }
 
 type fileComments struct {
-	Header []string // comments before the end of the package clause
-	Decls  []declComments
-	EOF    []string // comments after the last declaration
-	All    []string
+	Header     []string // comments before the end of the package clause
+	Decls      []declComments
+	ClauseLine []string // the comments of Header that stand behind the package clause on its line
+	Pkg        string
+	EOF        []string // comments after the last declaration
+	All        []string
 }
 
 var c17Directive = regexp.MustCompile(`^//(line |extern |export |[a-z0-9]+:[a-z0-9])`)
@@ -40,7 +42,7 @@ func modelComments(src string) (*fileComments, error) {
 	if err != nil {
 		return nil, err
 	}
-	fc := &fileComments{}
+	fc := &fileComments{Pkg: f.Name.Name}
 	for _, d := range f.Decls {
 		dc := declComments{Canon: ref.StripParens(ref.Canon(d, false))}
 		if g, ok := d.(*ast.GenDecl); ok && g.Tok == token.IMPORT {
@@ -57,6 +59,9 @@ func modelComments(src string) (*fileComments, error) {
 			// header and package doc, and a comment on the package clause's own line (an import comment)
 			for _, c := range realComments(cg) {
 				fc.Header = append(fc.Header, c.Text)
+				if cg.Pos() >= f.Name.End() {
+					fc.ClauseLine = append(fc.ClauseLine, c.Text)
+				}
 			}
 			continue
 		}
@@ -183,6 +188,10 @@ func judgeComments(src, out string) (class, detail string, untouchedWithComments
 	}
 	// header and package comments: all there, once, in order. A comment of a rewritten declaration that ends up on
 	// the package clause's line (merged lines) is not invented (the multiset check above) and is tolerated here.
+	if a.Pkg != b.Pkg && len(a.ClauseLine) > 0 {
+		// the patch rewrote the package clause: the comment behind it on that line stands on rewritten code
+		a.Header = a.Header[:len(a.Header)-len(a.ClauseLine)]
+	}
 	hi := 0
 	for _, c := range b.Header {
 		if hi < len(a.Header) && a.Header[hi] == c {
@@ -519,7 +528,12 @@ func runC17(ctx *core.Ctx, idx int) *core.Result {
 		pi := r.Intn(len(c17Patches))
 		pt = c17Patches[pi]
 		needImports := pi >= len(c17Patches)-3 // the import-changing patches
-		switch r.Intn(4) {
+		switch r.Intn(5) {
+		case 4:
+			// an earlier change renames the package (and rewrites something), a later one removes or replaces the
+			// first import: the header and package comments are nobody's to delete
+			pt = "@@\n@@\n-package p\n+package q\n\n-other\n+another\n" + "\n" + c17Patches[len(c17Patches)-3+r.Intn(3)]
+			needImports = true
 		case 0:
 			pt = pt + "\n" + c17Patches[r.Intn(len(c17Patches))]
 		case 1:
